@@ -89,25 +89,20 @@ def spec_selfcheck():
     assert A.eq(A.dot(u, v), A.dot(v, u))
 
 
+def check_conj(run, S, name, spec, kw):
+    r = run.use_root(S, name)
+    if r is None:
+        run.ob('%s:%s:present' % (PROP, name), False, rule='root-present', expected='root', found='missing')
+        return
+    conds = bool_conjunction(S, r['out'])
+    n = spec[1]
+    want = sorted('eq(a0.%s, 0)' % c for c in 'xyzw'[:n])
+    got = sorted(S.show(c) for c in conds) if conds is not None else None
+    run.ob('%s:%s:conj' % (PROP, name), got == want, rule='K2 comparator coverage', expected=want, found=got if got is not None else 'not a conjunction', where=r.get('span'))
+
+
 def check_specs(run, S, h):
-    for name, (spec, kw) in h.specs.items():
-        kind = spec[0]
-        if kind == 'value':
-            check_value(run, S, name, spec[1])
-        elif kind == 'post':
-            check_value(run, S, name, None, post=spec[1])
-        elif kind == 'conj_eq_zero':
-            r = run.use_root(S, name)
-            if r is None:
-                run.ob('%s:%s:present' % (PROP, name), False, rule='root-present', expected='root', found='missing')
-                continue
-            conds = bool_conjunction(S, r['out'])
-            n = spec[1]
-            want = sorted('eq(a0.%s, 0)' % c for c in 'xyzw'[:n])
-            got = sorted(S.show(c) for c in conds) if conds is not None else None
-            run.ob('%s:%s:conj' % (PROP, name), got == want, rule='K2 comparator coverage', expected=want, found=got if got is not None else 'not a conjunction', where=r.get('span'))
-        else:
-            raise KeyError(kind)
+    core.run_specs(run, S, h, custom={'conj_eq_zero': check_conj})
 
 
 def run(tier):
